@@ -57,7 +57,17 @@ class ScryptObj:
                     ip.ctx.raise_exc('InvalidKey', 'keys do not match')
                 # ghost: what a successful verification was based on
                 ln = ops.term(self.a[1], 'int')
-                ip.state.ghost['verified'] = ops.sbool(z3.And(ln >= 16, ops.blen(ops.term(expected)) == ln))
+                ann = ip.state.ghost.get('announced')
+                same = True
+                if ann is not None:
+                    # the parameters the verification ran with are the ones the hash string announces
+                    N, r, p, sl, L = ann
+                    same = ops.sbool(z3.And(ops.term(self.a[2], 'int') == ops.term(N, 'int'), ops.term(self.a[3], 'int') == ops.term(r, 'int'),
+                                            ops.term(self.a[4], 'int') == ops.term(p, 'int'), ln == ops.term(L, 'int'),
+                                            ops.blen(ops.term(self.a[0])) == ops.term(sl, 'int')))
+                else:
+                    same = False
+                ip.state.ghost['verified'] = ops.and_(ops.sbool(z3.And(ln >= 16, ops.blen(ops.term(expected)) == ln)), same)
                 return None
             return Builtin('Scrypt.verify', verify)
         ip.ctx.raise_exc('AttributeError', name)
@@ -166,6 +176,14 @@ HOOKS = {
 }
 
 
+def after_unpack(ip, frame, args, r):
+    if args and args[0] == '>HBBBB' and isinstance(r, tuple) and len(r) == 5:
+        ip.state.ghost['announced'] = r
+
+
+HOOKS['after-call:struct.unpack'] = after_unpack
+
+
 def urandom_hook(ip, n):
     t = z3.Const('salt_drawn', B)
     ops.set_len(t, 16)
@@ -233,8 +251,9 @@ class _:
 
 @contract('auth.Auth.verify_password', props=['C19'], variant='any-hash-string')
 class _:
-    """(d): for EVERY string: only ValueError / TypeError escape, and True is answered only for a hash with a digest of at
-    least 16 bytes that equals the key derived from the password"""
+    """(d): for EVERY string: only ValueError / TypeError escape, and True is answered only when the key derived with EXACTLY the
+    parameters the string announces (N, r, p, salt length, digest length >= 16) equals a digest of exactly the announced length -
+    a truncated or edited hash can therefore not verify"""
     def setup(E):
         return dict(password=E.bytes('q'), password_hash=E.str('hash_string'))
     hooks = HOOKS
